@@ -93,6 +93,8 @@ pub enum Short {
     Always,
     /// only the k-th (1-based, counted from arming) read/write call is short
     At(u64),
+    /// a transfer is cut at the next multiple of b bytes of the device offset (storage with its own block size)
+    Block(u64),
 }
 
 #[derive(Debug, Clone, Copy)]
@@ -275,6 +277,15 @@ impl DevState {
         Ok(())
     }
 
+    fn short_len_at(&mut self, n: usize, pos: u64) -> usize {
+        if let Short::Block(b) = self.short {
+            self.rw_calls += 1;
+            let to_boundary = b - pos % b;
+            return (n as u64).min(to_boundary) as usize;
+        }
+        self.short_len(n)
+    }
+
     fn short_len(&mut self, n: usize) -> usize {
         self.rw_calls += 1;
         if n <= 1 {
@@ -290,6 +301,7 @@ impl DevState {
                     n
                 }
             }
+            Short::Block(_) => n,
         }
     }
 
@@ -331,7 +343,7 @@ impl Read for MemDev {
     fn read(&mut self, buf: &mut [u8]) -> Result<usize, DevErr> {
         let mut st = self.st.borrow_mut();
         st.pre_call(Kind::Read)?;
-        let want = st.short_len(buf.len());
+        let want = st.short_len_at(buf.len(), self.pos);
         let avail = st.len.saturating_sub(self.pos);
         let n = (want as u64).min(avail) as usize;
         st.rec(Kind::Read, self.pos, n, None);
@@ -348,7 +360,7 @@ impl Write for MemDev {
     fn write(&mut self, buf: &[u8]) -> Result<usize, DevErr> {
         let mut st = self.st.borrow_mut();
         st.pre_call(Kind::Write)?;
-        let want = st.short_len(buf.len());
+        let want = st.short_len_at(buf.len(), self.pos);
         let avail = st.len.saturating_sub(self.pos);
         if (want as u64) > avail {
             st.oob_write = true;
